@@ -54,6 +54,11 @@ func (ss *segmentStack) decRef() {
 			ss.lowerLevelSnapshot.Close()
 			ss.lowerLevelSnapshot = nil
 		}
+		// Give up the ref-count held on each child stack, so that their
+		// lower-level snapshots get released, too.
+		for _, childSegStack := range ss.childSegStacks {
+			childSegStack.decRef()
+		}
 	}
 	ss.m.Unlock()
 }
